@@ -249,7 +249,27 @@ class Gen:
     def case_C03(self, idx): return self._with_calls(idx, ["crba", "nle", "id", "ltl", "hprops"], ncalls=10)
     def case_C04(self, idx): return self._with_calls(idx, ["b2b", "base2b", "orient"], ncalls=10)
     def case_C05(self, idx): return self._with_calls(idx, ["jac", "jac6", "sjac"], ncalls=8)
-    def case_C06(self, idx): return self._with_calls(idx, ["pvel", "pvel6", "pacc", "pacc6", "updkin", "updkinc", "updboth"], ncalls=10)
+    def case_C06(self, idx):
+        out = self._with_calls(idx, ["pvel", "pvel6", "pacc", "pacc6", "updkin", "updkinc", "updboth"], ncalls=8)
+        # the selective update followed by flag-cleared queries (the documented usage)
+        lines = [l for l in out if l.startswith("add ")]
+        # rebuild the layout information from a fresh parse is not needed: reuse the last generated state vectors
+        tail = []
+        for l in out:
+            t = l.split()
+            if t[0] in ("pacc", "pacc6") and self.r.random() < 0.6:
+                # pacc ref p(3) flag Q.. QD.. QDD..
+                k = 6; n = int(t[k]); Q = t[k:k + 1 + n]; k += 1 + n; n2 = int(t[k]); QD = t[k:k + 1 + n2]; k += 1 + n2; QDD = t[k:]
+                tail.append("scramble %d" % self.r.randint(0, 9))
+                tail.append("updkinc 7 %s %s %s" % (" ".join(Q), " ".join(QD), " ".join(QDD)))
+                t2 = list(t); t2[5] = "0"; tail.append(" ".join(t2))
+            if t[0] in ("pvel", "pvel6") and self.r.random() < 0.4:
+                k = 6; n = int(t[k]); Q = t[k:k + 1 + n]; k += 1 + n; QD = t[k:]
+                z = ["%d" % (len(QD) - 1)] + ["0.0"] * (len(QD) - 1)
+                tail.append("scramble %d" % self.r.randint(0, 9))
+                tail.append("updkinc 3 %s %s %s" % (" ".join(Q), " ".join(QD), " ".join(z)))
+                t2 = list(t); t2[5] = "0"; tail.append(" ".join(t2))
+        return out + tail
     def case_C12(self, idx): return self._with_calls(idx, ["com", "zmp", "ke", "pe", "fd"], ncalls=10)
 
     # documented preceding update for the flag-cleared form, and the observable to compare
